@@ -7,6 +7,7 @@ CONSTANTS
   MutClasses <- MutNone
   PreOps <- PreNone
   SkipIfSignedAddr = FALSE
-INVARIANTS SameSigners Sound
+  AddrBySigCount = FALSE
+INVARIANTS SameSigners Sound SignersAreScriptAccounts
 ACTION_CONSTRAINT Edge
 CHECK_DEADLOCK FALSE
